@@ -3,12 +3,16 @@ import Hannibal.Driver.Accept
 import Hannibal.Driver.Monitors
 import Hannibal.Driver.Spawn18
 import Hannibal.Driver.Types19
+import Hannibal.Driver.Reg08
 import Hannibal.Generated.Wiring
 open Hannibal Hannibal.Driver
 
 def reprLabel (l : Label) : String := (toString (repr l)).replace "\n" " "
 
 def processCase (mode : String) (pid : String) (header : String) (lines : List String) : IO Unit := do
+  if mode == "reg08" then
+    IO.println (processReg Wiring.current header lines (pid == "witness"))
+    return ()
   let c := parseCase header lines
   let mut out := s!"{header} :: "
   if !c.bad.isEmpty then
